@@ -42,13 +42,18 @@ def small_set(zh, workdir, seed, n_chunks=(3, 6), piece=(40, 400), kinds=None, c
             chunk_hash, full_hash = ch
             nch = r.randrange(n_chunks[0], n_chunks[1] + 1)
             pieces = [gen.content(r.choice(["license", "text", "random"]), r.randrange(piece[0], piece[1]), r.random()) for _ in range(nch)]
+            cfg = {"comp": comp, "manual": True, "chunk_hash": chunk_hash, "full_hash": full_hash, "uncomp": uncomp,
+                   "level": r.choice([1, 3, 9])}
+            db = gen.content("license", r.choice([60, 300, 2000]), 3) if dct else None
+            if comp == 2 and uncomp:
+                # (uncompressed-source files) a chunk whose zstd frame is exactly as long as its content
+                eq_ = gen.equal_size_piece("%s/%d" % (seed, k), b"", cfg["level"]) if not dct else None
+                if eq_:
+                    pieces[r.randrange(len(pieces))] = eq_
             D = b"".join(pieces)
             seg = []
             for pc in pieces:
                 seg += [len(pc), "e"]
-            cfg = {"comp": comp, "manual": True, "chunk_hash": chunk_hash, "full_hash": full_hash, "uncomp": uncomp,
-                   "level": r.choice([1, 3, 9])}
-            db = gen.content("license", r.choice([60, 300, 2000]), 3) if dct else None
             cdir = os.path.join(workdir, "base%03d" % k)
             data = write_with_lib(zh, cdir, D, cfg, seg, db)
             if data is not None:
@@ -76,9 +81,21 @@ def ref_set(seed, count=8):
         sed_ = (i % 5 == 3)
         if sed_:
             comp, db = 2, b""
+        # zstd frames as other encoders emit them: without the optional content-size field (streaming encoders), several frames per chunk
+        nocs_ = (i % 7 == 5)
+        frames_ = r.choice([2, 3]) if i % 7 == 6 else 1
+        if nocs_ or frames_ > 1:
+            comp = 2
+            pieces = [pc_ if len(pc_) >= 8 else pc_ + b"12345678" for pc_ in pieces]
+        if comp == 2 and i % 2 == 0:
+            # a chunk whose compressed form is exactly as long as its content (stored size == uncompressed size, yet compressed)
+            eq_ = gen.equal_size_piece("%s/%d" % (seed, i), db)
+            if eq_ and frames_ == 1 and not nocs_:
+                pieces.insert(r.randrange(len(pieces) + 1), eq_)
         data = zckref.make_file(pieces, comp_type=comp, dict_bytes=db, hash_type=r.choice([0, 1, 2, 3]), chunk_hash_type=cht,
-                                uncomp=uncomp, header_tail=tail, opt_elems=opt, stored_empty_dict=sed_)
-        out.append({"name": "ref-%d%s%s%s" % (i, "-hdrtail%d" % len(tail) if tail else "", "-optelems" if opt else "", "-emptydictframe" if sed_ else ""), "data": data, "content": b"".join(pieces),
+                                uncomp=uncomp, header_tail=tail, opt_elems=opt, stored_empty_dict=sed_, content_size=not nocs_, frames=frames_)
+        out.append({"name": "ref-%d%s%s%s%s%s" % (i, "-hdrtail%d" % len(tail) if tail else "", "-optelems" if opt else "", "-emptydictframe" if sed_ else "",
+                                              "-nocontentsize" if nocs_ else "", "-frames%d" % frames_ if frames_ > 1 else ""), "data": data, "content": b"".join(pieces),
                     "pieces": [len(p) for p in pieces], "dict": db, "cfg": {"comp": comp, "uncomp": uncomp}})
     return out
 
